@@ -304,7 +304,7 @@ fn king_producer_check<C: CheckType>() {
     }
 }
 
-// @ob id=O1.6k0 props=C01,C17 tier=quick kind=proof weight=light fn="KingType::legals::<NotInCheckType>" desc="complete (one king, no piece-count bound): the king entry holds exactly the steps onto squares not attacked once the king is lifted, plus the castling target exactly when the right is held, king and rook stand on their home squares, the squares between are empty and the king neither stands on, crosses nor lands on an attacked square; symbolic king, every valid position"
+// @ob id=O1.6k0 props=C01 also=C17 tier=quick kind=proof weight=light fn="KingType::legals::<NotInCheckType>" desc="complete (one king, no piece-count bound): the king entry holds exactly the steps onto squares not attacked once the king is lifted, plus the castling target exactly when the right is held, king and rook stand on their home squares, the squares between are empty and the king neither stands on, crosses nor lands on an attacked square; symbolic king, every valid position"
 #[kani::proof]
 #[kani::unwind(9)]
 #[kani::stub(crate::magic::get_rook_moves, crate::vstubs::rook_moves_cf)]
@@ -348,31 +348,31 @@ fn s2_lemma(pt: usize) {
     kani::cover!(ch != 0 && sp::s_legal(&pos, &mv));
 }
 
-// @ob id=S2.n props=C01 tier=quick kind=lemma cache=yes deps=s2_lemma weight=light fn="spec: s_legal2_set,s_legal (knights)" desc="code-independent chess lemma: for every valid position and every own knight, the pin/check-mask shortcut (double check: none; single check: capture or interpose; pinned: never) gives exactly the moves after which the own king is not attacked (definitional legality, flood-fill attack spec)"
+// @ob id=S2.n props=C01 tier=quick kind=lemma cache=yes deps=s2_lemma weight=medium fn="spec: s_legal2_set,s_legal (knights)" desc="code-independent chess lemma: for every valid position and every own knight, the pin/check-mask shortcut (double check: none; single check: capture or interpose; pinned: never) gives exactly the moves after which the own king is not attacked (definitional legality, flood-fill attack spec)"
 #[kani::proof]
 #[kani::unwind(9)]
 fn spec_s2_knight() {
     s2_lemma(sp::KNIGHT);
 }
-// @ob id=S2.b props=C01 tier=quick kind=lemma cache=yes deps=s2_lemma weight=light fn="spec: s_legal2_set,s_legal (bishops)" desc="S2 for bishops: pinned bishops move exactly along the line through the king when not in check"
+// @ob id=S2.b props=C01 tier=quick kind=lemma cache=yes deps=s2_lemma weight=medium fn="spec: s_legal2_set,s_legal (bishops)" desc="S2 for bishops: pinned bishops move exactly along the line through the king when not in check"
 #[kani::proof]
 #[kani::unwind(9)]
 fn spec_s2_bishop() {
     s2_lemma(sp::BISHOP);
 }
-// @ob id=S2.r props=C01 tier=quick kind=lemma cache=yes deps=s2_lemma weight=light fn="spec: s_legal2_set,s_legal (rooks)" desc="S2 for rooks"
+// @ob id=S2.r props=C01 tier=quick kind=lemma cache=yes deps=s2_lemma weight=medium fn="spec: s_legal2_set,s_legal (rooks)" desc="S2 for rooks"
 #[kani::proof]
 #[kani::unwind(9)]
 fn spec_s2_rook() {
     s2_lemma(sp::ROOK);
 }
-// @ob id=S2.q props=C01 tier=quick kind=lemma cache=yes deps=s2_lemma weight=light fn="spec: s_legal2_set,s_legal (queens)" desc="S2 for queens"
+// @ob id=S2.q props=C01 tier=quick kind=lemma cache=yes deps=s2_lemma weight=medium fn="spec: s_legal2_set,s_legal (queens)" desc="S2 for queens"
 #[kani::proof]
 #[kani::unwind(9)]
 fn spec_s2_queen() {
     s2_lemma(sp::QUEEN);
 }
-// @ob id=S2.p props=C01 tier=quick kind=lemma cache=yes deps=s2_lemma weight=light fn="spec: s_legal2_set,s_legal (pawn pushes and captures)" desc="S2 for pawn pushes, double pushes, captures and promotions (en-passant captures are specified definitionally and need no shortcut lemma)"
+// @ob id=S2.p props=C01 tier=quick kind=lemma cache=yes deps=s2_lemma weight=medium fn="spec: s_legal2_set,s_legal (pawn pushes and captures)" desc="S2 for pawn pushes, double pushes, captures and promotions (en-passant captures are specified definitionally and need no shortcut lemma)"
 #[kani::proof]
 #[kani::unwind(9)]
 fn spec_s2_pawn() {
